@@ -37,11 +37,14 @@ def shares_edge_3d(g, neu):
 
 
 def tilted_partition(case):
-    """Input class of the open finding 'tilted-2d-partition-frame': 2-D grid rotated out of a
-    coordinate-aligned position, discretized in several subproblems."""
+    """Input class of the open finding 'tilted-2d-partition-frame': a 2-D grid that does not
+    lie in (a plane parallel to) the xy-plane, discretized in pieces: several subproblems or
+    a partial update."""
     e = case["grid"].get("embed")
-    return bool(case["dim"] == 2 and case.get("nsub") and e
-                and sorted(abs(x) for x in e["q"]) not in ([0, 0, 0, 1],))
+    if not (case["dim"] == 2 and e and (case.get("nsub") or case.get("update"))):
+        return False
+    from harness.props.c11 import quat_rot
+    return bool(abs(abs(quat_rot(e["q"])[2, 2]) - 1.0) > 1e-12)
 
 
 def geom(g):
@@ -72,7 +75,7 @@ class C13(Prop):
     props_file = "Props/C13.v"
     preamble = ("From Coq Require Import List ZArith QArith.\nImport ListNotations.\n"
                 "From PP Require Import Model.C11 Model.C11_inv Model.C13 Model.C13_local.\nLocal Open Scope Z_scope.\n")
-    n_cases = (20, 100)
+    n_cases = (24, 110)
     design_ref = "DESIGN.md §5 C13 (certificate tie K, level P-method)"
     level_text = (
         "METHOD-LEVEL Coq theorems plus per-instance certificate checks, not a proof about the "
@@ -115,9 +118,11 @@ class C13(Prop):
         "corner regions whose faces are all Neumann) is not a theorem. Instances whose captured local "
         "systems have condition number > 1e10 are outside the left-inverse guard: excluded from the "
         "certificates, a failing oracle on them is the open finding 'singular-local-system'. 2-D grids "
-        "tilted out of the coordinate planes AND discretized in several subproblems are the input class "
-        "of the open finding 'tilted-2d-partition-frame' (excluded from the certificates, oracle "
-        "failures filtered by key). For a tilted 2-D grid the displacement components refer to the "
+        "not parallel to the xy-plane AND discretized in pieces (several subproblems or a partial update) "
+        "are the input class of the open finding 'tilted-2d-partition-frame' (excluded from the "
+        "certificates, oracle failures filtered by key, so another defect in that class would be masked; "
+        "the large update histories are therefore never embedded). Roller (component-wise) conditions are "
+        "checked by the oracle only (the Coq instance has one boundary kind per face). For a tilted 2-D grid the displacement components refer to the "
         "in-plane frame of pp.map_geometry.map_grid, which the harness calls itself (trusted). Traction "
         "is claimed on non-Neumann faces and displacement reconstruction on Dirichlet faces only. "
         "Face-wise boundary types only (no component-wise mixing, no Robin, default basis). Larger grids "
@@ -139,7 +144,14 @@ class C13(Prop):
             "two (quick) resp. five (thorough) larger oracle-only grids incl. "
             "StructuredTetrahedralGrid([2,2,1]) / ([3,3,2]) in 4 subproblems (faces discretized three and "
             "four times) and perturbed CartGrid([2,2,2]); three random linear fields (one a pure rotation) "
-            "plus one translation per case; non-trivial = at least 2 cells")
+            "plus one translation per case; mpsa_eta (0, 1/4, 1/3, 1/2 as scalars) and inverter (python / "
+            "numba) on half of the cases; a quarter of the cases are two-step update histories (flag route "
+            "or Mpsa.update_discretization()), plus oracle-only update histories on CartGrid([7,7]) (both "
+            "routes, quick) and StructuredTriangleGrid([6,6]); oracle-only component-wise (roller) "
+            "conditions on rectangles with the same number of Dirichlet faces per component on different "
+            "faces (west u_x / east u_y, west u_x / south u_y, ...; two in quick, five in thorough), "
+            "traction claimed on the non-Neumann components, displacement on the Dirichlet components; "
+            "non-trivial = at least 2 cells")
     trusted = ["geometry arrays, Lame parameters, boundary flags/signs, the four matrices of the real run "
                "and the captured local matrices are passed to Coq as exact dyadic rationals",
                "pp.map_geometry.map_grid for the in-plane coordinates of tilted 2-D grids"]
@@ -147,7 +159,8 @@ class C13(Prop):
                    "left inverse of the local systems (hypothesis; certified per instance by the "
                    "approximate-inverse certificate on a third of the small cases); admissible "
                    "interaction regions (hypothesis; derived from the 3-D edge-disjoint restriction)",
-                   "default eta, numba inverter"]
+                   "after an update history the stored matrices are required to satisfy the same exactness as after a "
+                   "full discretization"]
 
     # ------------------------------------------------------------------ generation
     def generate(self, rng, n, tier):
@@ -185,7 +198,7 @@ class C13(Prop):
                 spec["pert"] = [[rng.randint(-amp, amp) for _ in range(dim)]
                                 for _ in range(g.num_nodes)]
                 g = make_grid(spec)
-            if rng.random() < 0.4 and roller is None:
+            if rng.random() < 0.4 and roller is None and not extra.get("update"):
                 # rigid motion / power-of-two scaling; the topology does not change
                 spec["embed"] = embed_spec(rng)
             bfaces = [int(f) for f in g.get_all_boundary_faces()]
